@@ -70,7 +70,7 @@ def driver(case, api):
     src, pos = R.render(case["prog"], case.get("dl", 0), case.get("dc", 0))
     log, out = run_source(api, src)
     res = {"id": case["id"], "log": log, "out": out,
-           "pos": [[int(n), lc[0], lc[1]] for n, lc in sorted(pos.items(), key=lambda kv: int(kv[0]))]}
+           "pos": [[int(n)] + list(lc) for n, lc in sorted(pos.items(), key=lambda kv: int(kv[0]))]}
     if case.get("want_src"):
         res["src"] = src
     return res
